@@ -14,26 +14,36 @@
 (* sector-size shift of each archive (V1..V4 all occur).                                          *)
 (*   u1, u2  names with non-ASCII letters (e-acute, o-umlaut, sharp s, dotted capital I, euro     *)
 (*       sign): "Donn\'ees\\Carte_\'et\'e.txt", "Gr\"o\ss e_Ix_EUR.ttf"; stored ASCII-upper in A4, ASCII-lower in A3   *)
+(*   e1  the content-length dimension (round 4): non-empty in A1 / A3, EMPTY (content id E0) in   *)
+(*       A2 / A4 -- an empty version overrides a non-empty one and vice versa                     *)
+(*   e2  empty in A1 and A3 only (an empty file as the only version)                              *)
+(*   e3  empty base in A1; COPY E0->c93 in A2; COPY c93->E0 in A3 (a patch whose result is empty); *)
+(*       BSD0 on the empty base with maximal literal runs in A4                                   *)
+(*   p2  also: BSD0 b2->r2 with dense data / long extra block (class bsd0lit) in A2               *)
 (* "lf" is the (listfile), which every archive contains.                                         *)
 EXTENDS PatchChain
 \* (instances bind the constant Cont of PatchChain to StdWorld in their cfg: CONSTANT Cont <- StdWorld)
 
-WorldNames == <<"n1", "n2", "n3", "n4", "n5", "n6", "u1", "u2", "p1", "p2", "p3", "p4", "p5", "lf">>
+WorldNames == <<"n1", "n2", "n3", "n4", "n5", "n6", "u1", "u2", "e1", "e2", "e3", "p1", "p2", "p3", "p4", "p5", "lf">>
 Row(f) == [n \in {WorldNames[i] : i \in 1..Len(WorldNames)} |-> IF n \in DOMAIN f THEN f[n] ELSE NoEntry]
 StdWorld ==
   [A1 |-> Row([n1 |-> Plain("c11"), n2 |-> Plain("c21"), n5 |-> Plain("c51"), u1 |-> Plain("c61"),
                p1 |-> Plain("b1"), p2 |-> Plain("b2"), p3 |-> Plain("b3"),
-               p4 |-> Patch("s2", "t1", "corrupt"), p5 |-> Plain("Br5"), lf |-> Plain("lfA1")]),
+               p4 |-> Patch("s2", "t1", "corrupt"), p5 |-> Plain("Br5"), lf |-> Plain("lfA1"),
+               e1 |-> Plain("c81"), e2 |-> Plain(EmptyC), e3 |-> Plain(EmptyC)]),
    A2 |-> Row([n1 |-> Plain("c12"), n3 |-> Plain("c32"), u2 |-> Plain("c72"),
                p1 |-> Patch("b1", "q2", "copy"), p3 |-> Patch("b3", "u2", "garbage"),
                p4 |-> Patch("b4", "s2", "copy"), p5 |-> PatchS("Br5", "Bt5v2", "copy", "zsect"),
-               n6 |-> Plain("Bt6"), lf |-> Plain("lfA2")]),
+               n6 |-> Plain("Bt6"), lf |-> Plain("lfA2"),
+               e1 |-> Plain(EmptyC), e3 |-> Patch(EmptyC, "c93", "copy"), p2 |-> Patch("b2", "r2", "bsd0lit")]),
    A3 |-> Row([n1 |-> Plain("c13"), n2 |-> Plain("c23"), u1 |-> Plain("c63"),
                p1 |-> Patch("q2", "q3", "bsd0"), p2 |-> Patch("b2", "r3", "bsd0neg"), p3 |-> Patch("b3", "w3", "zerobsd0"),
-               p5 |-> PatchS("Bt5v2", "v53", "bsd0", "zsingle"), lf |-> Plain("lfA3")]),
+               p5 |-> PatchS("Bt5v2", "v53", "bsd0", "zsingle"), lf |-> Plain("lfA3"),
+               e1 |-> Plain("c83"), e2 |-> Plain(EmptyC), e3 |-> Patch("c93", EmptyC, "copy")]),
    A4 |-> Row([n1 |-> Plain("c14"), n5 |-> Plain("c54"), u1 |-> Plain("c64"), u2 |-> Plain("c74"),
                p1 |-> Patch("b1", "q4", "bsd0"), p3 |-> Patch("b3", "w4", "zerocopy"), p4 |-> Plain("b4"), p5 |-> Patch("v53", "v54", "bsd0neg"),
-               n6 |-> Plain("Br6"), lf |-> Plain("lfA4")])]
+               n6 |-> Plain("Br6"), lf |-> Plain("lfA4"),
+               e1 |-> Plain(EmptyC), e3 |-> Patch(EmptyC, "x94", "bsd0lit")])]
 \* (archives with a BET table -- V3, V4 -- hold raw patch entries only: the driver edits one BET flag word in place)
 StdFormat == [A1 |-> [ver |-> 3, shift |-> 3], A2 |-> [ver |-> 2, shift |-> 3],
               A3 |-> [ver |-> 1, shift |-> 3], A4 |-> [ver |-> 4, shift |-> 5]]
